@@ -77,7 +77,7 @@ func BuildFrame(v int, stream int, msg Message, codec BodyCodec) ([]byte, error)
 	if len(pre.B) > 0 {
 		body = append(pre.B, body...)
 	}
-	if codec != nil && !env.NoCompress {
+	if codec != nil && !env.NoCompress && len(body) > 0 {
 		c, err := codec.Encode(body)
 		if err != nil {
 			return nil, err
@@ -255,16 +255,6 @@ type Rows struct {
 	FlagsOverride       *int32
 	ColumnCountOverride *int32
 	RowCountOverride    *int32
-}
-
-func (m Rows) fill(c Column) Column {
-	if c.Keyspace == "" {
-		c.Keyspace = m.Keyspace
-	}
-	if c.Table == "" {
-		c.Table = m.Table
-	}
-	return c
 }
 
 func (m Rows) metadata(b *Buf) {
